@@ -308,5 +308,9 @@ def run(ctx, facts):
     ctx.rule("EXIT", C04.RULES["EXIT"])
     C04._histo(ctx, facts, C04.SMH + "sketch", "smh")
     C04._exit_aupper(ctx, facts, C04.SMH + "sketch")
+    ctx.rule("DRAWSEQ", "inside the draw loop of one item every draw on the item's generator is made on every iteration: the sketch of "
+                        "a set is the join of the single-item sketches only if an item's values do not depend on the sketch it meets")
+    C04.drawseq_rule(ctx, facts, C04.SMH + "sketch")
+    C04.drawseq_rule(ctx, facts, C04.SS + "sketch")
     C04.deleg_slice(ctx, facts, C04.SMH + "sketch_slice")
     C04.deleg_slice(ctx, facts, C04.SS + "sketch_slice")
